@@ -53,6 +53,10 @@ CONFIGS = {
     "c04thorough": [dict(universe="u1l", MaxMsgs=3, MaxRestarts=1, MaxFaults=0, MaxCrashes=0)],
     "deep": [dict(universe="deep", MaxMsgs=3, MaxRestarts=0, MaxFaults=0, MaxCrashes=0)],
     "retarget": [dict(universe="retarget", MaxMsgs=3, MaxRestarts=0, MaxFaults=0, MaxCrashes=0)],
+    # timestamp-profile class (C01 quick): stored chains with legal zig-zag timestamps ending on a low / a high tip,
+    # the in-memory list re-seeded with the stored tip alone (start, Restart, DonePeer of the sync peer, ImportReset),
+    # then two messages: the 2nd / 3rd header after the re-seed is dated at its TRUE median time past (invalid)
+    "zigzag": [dict(universe="zigzag", MaxMsgs=3, MaxPeerEv=3, MaxRestarts=1, MaxFaults=0, MaxCrashes=0)],
     "stale": [dict(universe="stale", MaxMsgs=3, MaxRestarts=0, MaxFaults=0, MaxCrashes=0)],
     "cpalt": [dict(universe="cpalt", MaxMsgs=3, MaxPeerEv=1, MaxRestarts=0, MaxFaults=0, MaxCrashes=0)],
     "crash": [dict(universe="u1", MaxMsgs=2, MaxRestarts=0, MaxFaults=0, MaxCrashes=1)],
@@ -298,6 +302,10 @@ def run(prop_id, tier, seed, replay=None):
             if tier == "quick" and prop_id in ("C01", "C02"):
                 # validity under other chain parameters / deep forks matters to these two
                 cfgs = cfgs + CONFIGS["deep"] + CONFIGS["retarget"] + CONFIGS["cpalt"]
+            if tier == "quick" and prop_id == "C01":
+                # "respects the median-time-past limit": the median must come from the header's TRUE ancestors also
+                # when most of them are read from the store and the stored timestamps are not monotone
+                cfgs = cfgs + CONFIGS["zigzag"]
             if tier == "quick" and prop_id == "C02":
                 # "not current" (tip older than 24 h): whom the client listens to while it is syncing an old chain
                 cfgs = cfgs + CONFIGS["stale"]
